@@ -3,7 +3,7 @@
 # property the fix repaired. Reverting a fix must make that property's check fire again.
 cd /verif
 while read sha prop; do
-  [ -z "$sha" ] && continue
+  [ -z "$sha" ] && continue; case "$sha" in "#"*) continue;; esac
   mkdir -p selftest/$prop
   git -C /repo show -R --format= $sha -- oxidize-pdf-core/src > selftest/$prop/revert-$sha.diff
   if ! git -C /repo apply --check /verif/selftest/$prop/revert-$sha.diff 2>/dev/null; then
